@@ -16,6 +16,9 @@ HERE = os.path.dirname(os.path.abspath(__file__))
 REPO = os.environ.get("UV_REPO", "/repo")
 LEAN = os.path.join(HERE, "lean")
 BUILD = os.path.join(HERE, "build")
+if os.path.realpath(REPO) != "/repo":
+    # a run against another tree (seeded change, mutation test) must not overwrite the binaries of a run against /repo
+    BUILD = os.path.join(HERE, "build", "alt-" + hashlib.sha1(os.path.realpath(REPO).encode()).hexdigest()[:10])
 HARNESS = os.path.join(HERE, "harness")
 EVID = os.path.join(HERE, "evidence")
 REPLAYS = os.path.join(HERE, "replays")
